@@ -18,7 +18,10 @@ import (
 
 func numLattice(tier string) []lv.V {
 	mx, mn := int64(math.MaxInt64), int64(math.MinInt64)
-	ints := []int64{0, 1, -1, 2, -2, 3, 7, -7, 63, 64, 65, -63, -64, 1 << 31, 1<<53 - 1, 1 << 53, 1<<53 + 1, 1 << 62, mx - 1, mx, mn, mn + 1}
+	ints := []int64{0, 1, -1, 2, -2, 3, 7, -7, 63, 64, 65, -63, -64, 1 << 31, 1<<53 - 1, 1 << 53, 1<<53 + 1, 1 << 62, mx - 1, mx, mn, mn + 1,
+		// boundaries of the encodings an implementation is likely to use for
+		// immediate operands (8 and 16 bit, signed and unsigned)
+		127, 128, -128, -129, 32767, 32768, -32768, -32769, 65535, 65536}
 	floats := []float64{0, math.Copysign(0, -1), 0.5, -0.5, 1, -1, 1.5, 3, -3, 7, -7.5, 5.3, 1 << 53, 1<<53 + 2,
 		0x1p63 - 1024, 0x1p63, -0x1p63, -0x1p63 - 2048, 0x1p64, 1e308, 5e-324, math.Inf(1), math.Inf(-1), math.NaN()}
 	if tier == "thorough" {
@@ -232,7 +235,9 @@ func global(m *host.Machine, path ...string) rt.Value {
 
 const numAlpha = "019fxep.+- "
 
-var curated = []string{"9223372036854775807", "9223372036854775808", "-9223372036854775808", "-9223372036854775809", "18446744073709551615", "18446744073709551616",
+var curated = []string{"127", "128", "129", "255", "256", "257", "32767", "32768", "32769", "65535", "65536", "65537", "0x7f", "0x80", "0xff", "0x100", "0x7fff", "0x8000", "0x8001", "0xffff", "0x10000",
+	"2147483647", "2147483648", "4294967295", "4294967296", "0x7fffffff", "0x80000000", "0xffffffff", "0x100000000", "32768.0", "65536.0",
+	"9223372036854775807", "9223372036854775808", "-9223372036854775808", "-9223372036854775809", "18446744073709551615", "18446744073709551616",
 	"0xffffffffffffffff", "0x10000000000000000", "0x1ffffffffffffffff", "0x7fffffffffffffff", "0x8000000000000000", "0x", "0X1P4", "0x.8p1", "0x8.p1", "0x.p1", "0xp1",
 	"1e", "1e+", "1e+5", "1E5", "+-5", "-+5", "- 5", "+ 5", "--5", "inf", "nan", "-inf", "infinity", "0x1p-1074", "0x1p-1075", "0x1.fffffffffffff8p1023", "0x1p1024", "1e308", "1e309", "1e-324", "2.5e-324",
 	" 10", "10 ", "\t10\n", "\v10\f", "10\x00", "\x0010", "1\x002", "1_000", "1,5", "1..2", "1.2.3", ".", ".e1", "e1", "5.", ".5", "5.e1", "00010", "0x00A", "1e0009", "0e0", "-0", "-0.0", "+0",
